@@ -173,85 +173,89 @@ def doBind (w : World) : Py World :=
   if w.terminated then .error (.llcp ESHUTDOWN)
   else .ok { w with s := { w.s with bound := true }, registered := true, sapAlive := true, sapOthers := false }
 
+def takeRecv (w : World) (got : World → PduK → List PduK → Step) : Step :=
+  match w.s.recvQ with
+  | k :: r => got w k r
+  | [] => .at .wTcoRecv w
+
+def bodyRecv (w : World) : Step :=
+  if w.s.kind = .dlc then
+    (if ¬ w.s.estOrCw then raise ENOTCONN w else takeRecv w recvGot)
+  else
+    (if w.s.st = .shutdown then raise ESHUTDOWN w else takeRecv w recvGot)
+
+def bodySend (dw : Bool) (len : Nat) (w : World) : Step :=
+  let s := w.s
+  if s.kind = .dlc then
+    (if ¬ s.isEst then (if s.st = .closeWait then raise EPIPE w else raise ENOTCONN w)
+     else if len > s.sendMiu then raise EMSGSIZE w
+     else dlcSendLoop dw w)
+  else if s.st = .shutdown then raise ESHUTDOWN w
+  else if s.kind = .ldl ∧ len > s.sendMiu then raise EMSGSIZE w
+  else
+    (let s1 := { s with sendQ := s.sendQ ++ [.ui] }
+     if dw then ret (.bool s1.isEst) (withS w s1) else .at .wTcoSend (withS w s1))
+
+def bodyAccept (w : World) : Step :=
+  if w.s.st = .shutdown then raise ESHUTDOWN w
+  else if w.s.st ≠ .listen then raise EINVAL w
+  else takeRecv (withS w { w.s with recvBuf := w.s.recvBuf + 1 }) acceptGot
+
+def bodyConnect (w : World) : Step :=
+  let s := w.s
+  if s.kind = .raw then .done (.error .assertion) w       -- not reached: see `start`
+  else if s.kind = .ldl then ret .none w        -- the state was tested before the lock was taken (see `start`)
+  else if s.st ≠ .closed then
+    (if s.st = .established then raise EISCONN w
+     else if s.st = .connect then raise EALREADY w else raise EPIPE w)
+  else takeRecv (withS w { s with st := .connect, sendQ := s.sendQ ++ [.connect] }) connectGot
+
+def bodyListen (w : World) : Step :=
+  if w.s.st = .shutdown then raise ESHUTDOWN w
+  else if w.s.st ≠ .closed then raise EOPNOTSUPP w
+  else ret .none (withS w { w.s with st := .listen, recvBuf := 2 })
+
+def closeGot (w : World) (_k : PduK) (r : List PduK) : Step := closeFinish (withS w { w.s with recvQ := r })
+
+def bodyClose (w : World) : Step :=
+  if w.s.kind = .dlc ∧ w.s.isEst ∧ w.s.bound then
+    takeRecv (withS w { w.s with st := .disconnect, sendQ := w.s.sendQ ++ [.disc] }) closeGot
+  else closeFinish w
+
+def pollRecvNow (w : World) : Step :=
+  match w.s.recvQ with
+  | k :: _ => ret (.bool (w.s.kind ≠ .dlc || k == .i)) w
+  | [] => .at .wPollRecv w
+
+def bodyPoll (ev : Ev) (w : World) : Step :=
+  let s := w.s
+  if s.st = .shutdown then raise ESHUTDOWN w
+  else if s.kind = .dlc then
+    (match ev with
+     | .recv => if s.estOrCw then pollRecvNow w else ret .none w
+     | .send =>
+       if s.isEst then (if s.sendQ.length ≥ s.sendBuf then .at .wPollSend w else ret (.bool true) w)
+       else ret .none w
+     | .acks =>
+       if s.acks > 0 then ret (.bool true) (withS w { s with acks := s.acks - 1 }) else .at .wPollAcks w
+     | .bogus => raise EINVAL w)
+  else
+    (match ev with
+     | .recv => pollRecvNow w
+     | .send => if s.sendQ.length ≥ s.sendBuf then .at .wPollSend w else ret (.bool true) w
+     | .acks => raise EINVAL w
+     | .bogus => raise EINVAL w)
+
 /-- body of a call with the socket lock held (first entry) -/
 def body (c : Call) (w : World) : Step :=
-  let s := w.s
   match c with
-  | .recv =>
-    (match s.kind with
-     | .raw | .ldl =>
-       if s.st = .shutdown then raise ESHUTDOWN w else
-       (match s.recvQ with | k :: r => recvGot w k r | [] => .at .wTcoRecv w)
-     | .dlc =>
-       if ¬ s.estOrCw then raise ENOTCONN w else
-       (match s.recvQ with | k :: r => recvGot w k r | [] => .at .wTcoRecv w))
-  | .send dw len =>
-    (match s.kind with
-     | .raw =>
-       if s.st = .shutdown then raise ESHUTDOWN w else
-       (let s1 := { s with sendQ := s.sendQ ++ [.ui] }
-        if dw then ret (.bool s1.isEst) (withS w s1) else .at .wTcoSend (withS w s1))
-     | .ldl =>
-       if s.st = .shutdown then raise ESHUTDOWN w
-       else if len > s.sendMiu then raise EMSGSIZE w else
-       (let s1 := { s with sendQ := s.sendQ ++ [.ui] }
-        if dw then ret (.bool s1.isEst) (withS w s1) else .at .wTcoSend (withS w s1))
-     | .dlc =>
-       if ¬ s.isEst then (if s.st = .closeWait then raise EPIPE w else raise ENOTCONN w)
-       else if len > s.sendMiu then raise EMSGSIZE w
-       else dlcSendLoop dw w)
-  | .accept =>
-    if s.st = .shutdown then raise ESHUTDOWN w
-    else if s.st ≠ .listen then raise EINVAL w else
-    (let w1 := withS w { s with recvBuf := s.recvBuf + 1 }
-     match s.recvQ with | k :: r => acceptGot w1 k r | [] => .at .wTcoRecv w1)
-  | .connect =>
-    (match s.kind with
-     | .raw => .done (.error .assertion) w       -- not reached: see `start`
-     | .ldl => ret .none w         -- the state was tested before the lock was taken (see `start`)
-     | .dlc =>
-       if s.st ≠ .closed then
-         (if s.st = .established then raise EISCONN w
-          else if s.st = .connect then raise EALREADY w else raise EPIPE w)
-       else
-         (let w1 := withS w { s with st := .connect, sendQ := s.sendQ ++ [.connect] }
-          match s.recvQ with | k :: r => connectGot w1 k r | [] => .at .wTcoRecv w1))
-  | .listen =>
-    if s.st = .shutdown then raise ESHUTDOWN w
-    else if s.st ≠ .closed then raise EOPNOTSUPP w
-    else ret .none (withS w { s with st := .listen, recvBuf := 2 })
-  | .close =>
-    (match s.kind with
-     | .raw | .ldl => closeFinish w
-     | .dlc =>
-       if s.isEst ∧ s.bound then
-         (let w1 := withS w { s with st := .disconnect, sendQ := s.sendQ ++ [.disc] }
-          match s.recvQ with
-          | _ :: r => closeFinish (withS w1 { w1.s with recvQ := r })
-          | [] => .at .wTcoRecv w1)
-       else closeFinish w)
-  | .poll ev _ =>
-    if s.st = .shutdown then raise ESHUTDOWN w else
-    (match s.kind with
-     | .raw | .ldl =>
-       (match ev with
-        | .recv => if s.recvQ = [] then .at .wPollRecv w else ret (.bool true) w
-        | .send => if s.sendQ.length ≥ s.sendBuf then .at .wPollSend w else ret (.bool true) w
-        | _ => raise EINVAL w)
-     | .dlc =>
-       (match ev with
-        | .recv =>
-          if s.estOrCw then
-            (match s.recvQ with | k :: _ => ret (.bool (k == .i)) w | [] => .at .wPollRecv w)
-          else ret .none w
-        | .send =>
-          if s.isEst then
-            (if s.sendQ.length ≥ s.sendBuf then .at .wPollSend w else ret (.bool true) w)
-          else ret .none w
-        | .acks =>
-          if s.acks > 0 then ret (.bool true) (withS w { s with acks := s.acks - 1 })
-          else .at .wPollAcks w
-        | .bogus => raise EINVAL w))
+  | .recv => bodyRecv w
+  | .send dw len => bodySend dw len w
+  | .accept => bodyAccept w
+  | .connect => bodyConnect w
+  | .listen => bodyListen w
+  | .close => bodyClose w
+  | .poll ev _ => bodyPoll ev w
   | .bind => ret .none w
   | .resolve => ret .none w
 
@@ -310,7 +314,7 @@ def exec (c : Call) (p : Pt) (w : World) : Step :=
         | [] => if s.kind = .dlc then ret .none w else raise EPIPE w)
      | .accept => (match s.recvQ with | k :: r => acceptGot w k r | [] => raise EPIPE w)
      | .connect => (match s.recvQ with | k :: r => connectGot w k r | [] => raise EPIPE w)
-     | .close => (match s.recvQ with | _ :: r => closeFinish (withS w { s with recvQ := r }) | [] => closeFinish w)
+     | .close => (match s.recvQ with | k :: r => closeGot w k r | [] => closeFinish w)
      | _ => .done (.error .assertion) w)
   | .wTcoSend => ret (.bool s.isEst) w
   | .wWindow => dlcSendLoop false w
@@ -394,11 +398,12 @@ inductive Cause
   | terminateCb           -- the terminate callback returned true
   | keyboardInterrupt
   | ioError
+  | ioErrorPersistent     -- the device is gone: the deactivation inside terminate() raises IOError again
   | keyAgreementError | decryptionError | encryptionError
   | otherException        -- any other exception raised inside the loop
   deriving DecidableEq, Repr
 
-inductive Leave | returns | raisesKeyboardInterrupt | raisesSystemExit | reraises
+inductive Leave | returns | raisesKeyboardInterrupt | raisesSystemExit | raisesIOError | reraises
   deriving DecidableEq, Repr
 
 structure LoopEnd where
@@ -416,6 +421,7 @@ def loopEnd (_r : Role) : Cause → LoopEnd
   | .terminateCb => ⟨true, .returns⟩
   | .keyboardInterrupt => ⟨true, .raisesKeyboardInterrupt⟩
   | .ioError => ⟨true, .raisesSystemExit⟩
+  | .ioErrorPersistent => ⟨true, .raisesIOError⟩   -- terminate() raises inside the handler, after the local shutdown
   | .keyAgreementError => ⟨true, .raisesSystemExit⟩
   | .decryptionError => ⟨true, .raisesSystemExit⟩
   | .encryptionError => ⟨true, .raisesSystemExit⟩
@@ -430,6 +436,7 @@ def connectEnd (r : Role) (c : Cause) : ConnectEnd :=
   | .returns => .returns
   | .raisesKeyboardInterrupt => .returns
   | .raisesSystemExit => .raisesSystemExit
+  | .raisesIOError => .returns
   | .reraises => .reraises
 
 /-- `terminate()` itself: the deactivation of the MAC may raise (dead device); the local
@@ -485,6 +492,13 @@ def resultAfter (c : Call) (w : World) : Option (Py Val) :=
   match run c 8 (start c w) [] with
   | .finished r _ => some r
   | _ => none
+
+/-- the thread of call `c` makes `k` scheduling steps during which nothing else happens
+    (`none` when the call is over or blocks for ever before that) -/
+def advance (c : Call) : Nat → Step → Option Step
+  | 0, s => some s
+  | _ + 1, .done _ _ => none
+  | k + 1, .at p w => if p.isWait && !callTimeout c then none else advance c k (exec c p w)
 
 def serviceRun (w : World) : Nat → SPt → SPt
   | 0, p => p
